@@ -320,8 +320,14 @@ class Check:
         os.makedirs(REPLAY, exist_ok=True)
         os.makedirs(EVID, exist_ok=True)
         reported, known, seen = [], {}, set()
+        beyond = {}
         for v in self.violations:
             key = v.get("key", "")
+            if key.startswith("beyond:"):
+                # a mismatch with a part of the specification that goes beyond the property's statement (spec growth):
+                # recorded and printed, never an alarm for this property (bin/check-extra treats these strictly)
+                beyond.setdefault(key, v)
+                continue
             hit = None
             for f in findings:
                 if re.fullmatch(f["match"], key):
@@ -336,6 +342,9 @@ class Check:
             reported.append(v)
         for f in known.values():
             print(f"KNOWN-FINDING: property={self.prop} {f['what']}", flush=True)
+        for k, v in beyond.items():
+            log(f"[beyond-property] {k}: {str(v.get('what'))[:300]}")
+        self.beyond = beyond
         paths = []
         for v in reported[:20]:
             h = hashlib.sha1(json.dumps(v, sort_keys=True).encode()).hexdigest()[:10]
@@ -349,6 +358,7 @@ class Check:
         if not cov["samples"]:
             cov["samples"] = ["(none recorded)"]
         cov["known_findings_matched"] = sorted(known.keys())
+        cov["beyond_property_mismatches"] = [{"key": k, "what": str(v.get("what"))[:500]} for k, v in beyond.items()]
         ev = {"property_id": self.prop, "tier": self.tier, "seed": self.seed, "level": self.level,
               "coverage": cov, "assumptions": self.assumptions, "wall_s": round(time.time() - self.t0, 1),
               "violations": len(reported), "notes": self.notes}
